@@ -194,9 +194,14 @@ REG['C20'] = dict(
     stubs=['none (declaration calls only)'])
 
 _H = {'house': True, 'mixed_time_units': False, 'differential': True}
+# A is not always written in the units of the documentation: any pair of unit
+# assignments (A, B) qualifies; here A draws its own units (and writes some
+# magnitudes as whole numbers)
+_H2 = {'mixed_time_units': False, 'differential': True}
 REG['C07'] = dict(
     oracle='c07', profiles=[('dyn', 3, _H), ('ctrl', 2, _H), ('lock', 1, _H),
-                            ('stop', 1, _H), ('query', 1, _H)],
+                            ('stop', 1, _H), ('query', 1, _H),
+                            ('dyn', 1, _H2), ('ctrl', 1, _H2)],
     quick=8000, thorough=200000,
     vacuity=['builds_compared', 'compared_instants', 'snapshots_compared',
              'unit_Angle:rad', 'unit_Angle:arcsec', 'unit_Angle:rot',
